@@ -76,7 +76,12 @@ type c10WS struct {
 func (f *c10File) text(msgOf map[string][2]string) string {
 	var sb strings.Builder
 	sb.WriteString("syntax = \"proto3\";\npackage " + f.Pkg + ";\n")
-	for _, im := range f.Imports {
+	for i, im := range f.Imports {
+		if i%3 == 1 {
+			// a weak import is an import: the owner of the file is a dependency all the same
+			sb.WriteString(fmt.Sprintf("import weak %q;\n", im))
+			continue
+		}
 		sb.WriteString(fmt.Sprintf("import %q;\n", im))
 	}
 	sb.WriteString("message " + f.Msg + " {\n")
